@@ -167,3 +167,28 @@ package util
 //@                                                          netContains(netOfVal(net), ipval(reservedNetworks[j].IP))))
 
 //@ spec rnNonNil() bool = forall(j, 0, len(reservedNetworks), reservedNetworks[j] != nil)
+
+// ---------------------------------------------------------------------------
+// small prime factors (C16). The table is the bigIntPrimes literal (read mechanically);
+// its completeness for all divisors 2..751 is the per-divisor lemma family of govc/c16.go.
+
+//@ spec primesWF() bool =
+//@      len(bigIntPrimes) == tableLen("bigIntPrimes") && zero != nil && !fresh(zero) && val(zero) == 0 &&
+//@      forall(j, 0, len(bigIntPrimes), bigIntPrimes[j] != nil && !fresh(bigIntPrimes[j]) &&
+//@                                     val(bigIntPrimes[j]) == tableInt("bigIntPrimes", j))
+
+//@ func PrimeNoSmallerThan752 [C16]
+//@   requires dividend != nil && primesWF()
+//@   nopanic
+//@   assigns \fresh
+//@   loop 1 invariant primesWF() && quotient != nil && mod != nil && fresh(quotient) && fresh(mod) && quotient != mod
+//@   loop 1 invariant forall(j, 0, k, emod(val(dividend), tableInt("bigIntPrimes", j)) != 0)
+//@   ensures result == forall(j, 0, tableLen("bigIntPrimes"), emod(val(dividend), tableInt("bigIntPrimes", j)) != 0)
+
+// RSA public key of a certificate as the lints see it. hasRSAKey is what a CheckApplies
+// comma-ok assertion establishes plus the parser invariant that a parsed RSA key has a modulus.
+//@ spec rsaKey(c *x509.Certificate) *rsa.PublicKey = unbox(c.PublicKey, *rsa.PublicKey)
+//@ spec hasRSAKey(c *x509.Certificate) bool =
+//@      typeIs(c.PublicKey, *rsa.PublicKey) && rsaKey(c) != nil && rsaKey(c).N != nil
+//@ spec modulus(c *x509.Certificate) int = val(rsaKey(c).N)
+//@ spec exponent(c *x509.Certificate) int = rsaKey(c).E
